@@ -74,10 +74,10 @@ def coq_file(cases):
 
 
 def parse_bad(out):
-    for l in out.split('\n'):
-        if l.startswith('@@BAD '):
-            return [(int(a), int(b)) for a, b in re.findall(r'\((\d+),\s*(\d+)\)', l)]
-    return None
+    k = out.find('@@BAD')           # a long list is printed over several lines
+    if k < 0:
+        return None
+    return [(int(a), int(b)) for a, b in re.findall(r'\((\d+),\s*(\d+)\)', out[k:])]
 
 
 def size_of(s):
@@ -125,7 +125,7 @@ def run(ctx):
         c = cases[i]
         ctx.report('oracle:' + key, 'on a real Node tree (%s, %d nodes): %s' % (c['source'], size_of(c['shape']), msg),
                    {'kind': 'oracle', 'oracle_key': key, 'shape': c['shape'], 'p': p, 'message': msg, 'source': c['source'],
-                    'grown': bool(c.get('grown')), 'heap': c['obs']['heap'], 'obs': c['obs']})
+                    'grown': bool(c.get('grown')), 'grow': c.get('grow'), 'heap': c['obs']['heap'], 'obs': c['obs']})
     n_oracle_bad = sum(1 for c in cases if c['oracle'])
     ctx.oblige('property oracle holds on the implementation for all %d trees' % len(cases), n_oracle_bad == 0,
                '%d trees fail; keys: %s' % (n_oracle_bad, sorted(by_key)))
@@ -160,11 +160,21 @@ def run(ctx):
         return
 
     # ---- model vs implementation, inside Coq
-    chunks = [cases[i:i + CHUNK] for i in range(0, len(cases), CHUNK)]
+    chunks, starts, cur, cur_bytes = [], [], [], 0
+    for i, c in enumerate(cases):
+        n = 120 * size_of(c['shape']) + 200                 # rough size of the case's Coq text
+        if cur and (len(cur) >= CHUNK or cur_bytes + n > 600000):
+            chunks.append(cur)
+            cur, cur_bytes = [], 0
+        if not cur:
+            starts.append(i)
+        cur.append(c)
+        cur_bytes += n
+    chunks.append(cur)
     texts = [coq_file(ch) for ch in chunks]
     ctx.oblige('correspondence files stay below 1.5 MB each (largest %d bytes)' % max(len(t) for t in texts),
                max(len(t) for t in texts) < 1500000)
-    with ThreadPoolExecutor(max_workers=4) as ex:
+    with ThreadPoolExecutor(max_workers=6) as ex:
         results = list(ex.map(lambda kt: ctx.coq_eval(kt[1], 'cases%d' % kt[0], timeout=900), enumerate(texts)))
     bad = []
     for k, (okc, outc) in enumerate(results):
@@ -172,7 +182,7 @@ def run(ctx):
         if b is None:
             ctx.oblige('correspondence chunk %d evaluates in Coq' % k, False, outc[-3000:])
             return
-        bad += [(k * CHUNK + i, code) for i, code in b]
+        bad += [(starts[k] + i, code) for i, code in b]
     in_text = [(i, code) for i, code in bad if code & 15]
     ctx.oblige('correspondence: model (props_bfs, pre_stack, post_stack, find_node_tbl) = real Node methods on %d trees, '
                '%d calls' % (len(cases), n_eval), not in_text,
@@ -197,7 +207,8 @@ def run(ctx):
                            'model and implementation disagree on %s (the property oracle passed on this tree): the theorem %s '
                            'no longer speaks about the code' % (what, thm),
                            {'kind': 'correspondence', 'shape': c['shape'], 'obs': c['obs'], 'bits': code, 'theorem': thm,
-                            'source': c['source'], 'grown': bool(c.get('grown')), 'heap': c['obs']['heap']},
+                            'source': c['source'], 'grown': bool(c.get('grown')), 'grow': c.get('grow'),
+                            'heap': c['obs']['heap']},
                            found_input=False)
 
 
